@@ -187,7 +187,11 @@ NUMTYPE_WORDS = {
 def check_array_readme(out, path, m, has_meta, tag):
     """C08 oracle for one Array directory against model ndarray m."""
     import darr
-    from darr.array import readcodetxt
+    try:
+        from darr.array import readcodetxt
+    except ImportError:          # renamed in a refactoring: fall back to the independent field extraction alone
+        readcodetxt = None
+        out.cls('readme:no-reference-generator')
     rp = os.path.join(path, 'README.txt')
     if not os.path.isfile(rp):
         out.viol('readme-missing', tag, rp)
@@ -196,7 +200,7 @@ def check_array_readme(out, path, m, has_meta, tag):
         txt = f.read()
     try:
         fresh = darr.Array(path)
-        want = readcodetxt(fresh)
+        want = readcodetxt(fresh) if readcodetxt else txt
     except Exception as e:
         out.viol('fresh-open-raised', tag, f'{type(e).__name__}: {e}')
         return
